@@ -5,7 +5,7 @@
 (* format module's CellSrc.  Many traces per file; one verdict line per trace.*)
 EXTENDS Common, TraceCommon, Json, IOUtils
 
-CONSTANTS N, CB, P, MaxTail, NGD, GTES
+CONSTANTS N, CB, P, MaxTail, NGD, GTES, NL1, L2N, S, NCOMP, EXT
 VARIABLES img, view, last, tid, l, pos
 vars  == <<img, view, last>>
 tvars == <<vars, tid, l, pos>>
@@ -15,6 +15,7 @@ Vhd == INSTANCE Vhd
 Hds == INSTANCE Hds
 Vhdx == INSTANCE Vhdx
 Vmdk == INSTANCE Vmdk
+Qcow2 == INSTANCE Qcow2
 
 Traces == ndJsonDeserialize(IOEnv.TRACE_FILE)
 T      == Traces[tid]
@@ -37,11 +38,21 @@ VmdkImg(j) == [class |-> j.class, gtes |-> j.gtes, cb |-> j.cb, cap |-> j.cap, p
 VmdkSrc(j, q) == LET t == Vmdk!CellSrc(VmdkImg(j), q)
                  IN IF t.k = "D" /\ j.t[(q \div j.cb) + 1] = "C" THEN Comp(t.c \div j.cb, t.c % j.cb) ELSE t
 
+\* QCOW2 traces carry real 32-bit allocation / zero bitmaps as 16-bit halves (TLC integers are 32-bit signed)
+Bit(lo, hi, b) == IF b < 16 THEN (lo \div (2 ^ b)) % 2 ELSE (hi \div (2 ^ (b - 16))) % 2
+QSub(j, c, o) == IF Bit(j.al_lo[c + 1], j.al_hi[c + 1], o) = 1 THEN "A"
+                 ELSE IF Bit(j.ze_lo[c + 1], j.ze_hi[c + 1], o) = 1 THEN "Z" ELSE "U"
+QcowImg(j) == [ext |-> j.ext, datafile |-> j.datafile, l2n |-> j.nc, s |-> j.s, l1 |-> [x \in 0..0 |-> TRUE],
+               back |-> j.back, size |-> j.nc * j.s,
+               l2 |-> [c \in 0..j.nc-1 |-> [t |-> j.t[c + 1], h |-> j.h[c + 1],
+                                             sub |-> IF j.ext /\ j.t[c + 1] # "C" THEN [o \in 1..32 |-> QSub(j, c, o - 1)] ELSE <<>>]]]
+
 Src(q) == CASE T.fmt = "vdi" -> Vdi!CellSrc(VdiImg(T.img), q)
             [] T.fmt = "vhd" -> Vhd!CellSrc(VhdImg(T.img), q)
             [] T.fmt = "hds" -> Hds!CellSrc(HdsImg(T.img), q)
             [] T.fmt = "vhdx" -> Vhdx!CellSrc(VhdxImg(T.img), q)
             [] T.fmt = "vmdk" -> VmdkSrc(T.img, q)
+            [] T.fmt = "qcow2" -> Qcow2!CellSrc(QcowImg(T.img), q)
 
 Ev == T.events[l]
 
